@@ -30,6 +30,16 @@ CHECKS["C05"] = dict(
     technique="TLA+ reference interpreter model-checked with TLC; TLC-generated vectors replayed into the Go code",
     design="3/C05")
 
+CHECKS["C06"] = dict(
+    text="One TLA+ module (spec/props/C06.tla) over the reference executor: TLC checks declarative invariants on every case "
+         "(exactly the first truthy branch for all truth assignments of 1-4 conditions; else branch iff the sequence is empty "
+         "or null; non-iterable is an error; loop metadata equals its closed form for every element; inline condition "
+         "filters elements) and prints each case with the reference output; every vector is replayed into Env.Execute.",
+    note="Trusted: reference semantics in spec/Exec.tla, harness unparser/recorder, TLC. Multi-entry hash iteration order is not "
+         "determined by the property and is outside the generated family.",
+    technique="TLA+ reference executor model-checked with TLC; TLC-generated vectors replayed into the Go code",
+    design="3/C06")
+
 NOT_YET = {}
 
 props = [json.loads(l)["id"] for l in open(os.path.join(VERIF, "properties.jsonl"))]
